@@ -21,6 +21,7 @@ pub mod c17;
 pub mod c18;
 pub mod c19;
 pub mod c20;
+pub mod c22;
 pub mod c23;
 pub mod c24;
 pub mod c25;
@@ -37,6 +38,8 @@ pub mod c36;
 pub mod df;
 pub mod projgen;
 pub mod robust_worker;
+pub mod sf;
+pub mod sveq;
 
 #[path = "../gen_text.rs"]
 pub mod gen_text;
@@ -74,6 +77,7 @@ pub fn registry() -> Vec<(&'static str, CheckFn)> {
         ("C18", c18::run as CheckFn),
         ("C19", c19::run as CheckFn),
         ("C20", c20::run as CheckFn),
+        ("C22", c22::run as CheckFn),
         ("C23", c23::run as CheckFn),
         ("C24", c24::run as CheckFn),
         ("C25", c25::run as CheckFn),
@@ -114,6 +118,7 @@ pub fn replay(path: &str) -> i32 {
         "C18" => c18::replay(&doc),
         "C19" => c19::replay(&doc),
         "C20" => c20::replay(&doc),
+        "C22" => c22::replay(&doc),
         "C23" => c23::replay(&doc),
         "C24" => c24::replay(&doc),
         "C25" => c25::replay(&doc),
